@@ -140,6 +140,15 @@ def splitCS (s : Bytes) : List Bytes :=
     | c :: rest, cur => go rest (c :: cur)
   if s.isEmpty then [] else go s []
 
+def lowerB (s : Bytes) : Bytes := s.map fun c => if 65 ≤ c ∧ c ≤ 90 then c + 32 else c
+
+/-- spec side of the extended key usages: every encoded purpose is shown exactly once — a purpose crypto/x509 knows by
+    the name of its constant without the `ExtKeyUsage` prefix (id-kp-serverAuth → "serverAuth", compared without regard
+    to letter case), any other purpose by its dotted OID.  Order is not demanded. -/
+def ekuShownOk (c : CertFields) (shown : List Bytes) : Bool :=
+  let want := c.extKeyUsage.map (fun n => lowerB (strBytes ((n.drop 11).toString))) ++ c.unknownEKU
+  (shown.map lowerB).isPerm want
+
 def holds (c : CertFields) (subj : Option (List (List (DN.Oid × DN.Runes)))) (g : Option GT) (impl : String) : String :=
   match (impl.splitOn " ").filter (· ≠ "") with
   | "ok" :: toks =>
@@ -161,6 +170,8 @@ def holds (c : CertFields) (subj : Option (List (List (DN.Oid × DN.Runes)))) (g
       else if (if g.skid.isEmpty then false else i.attrValues "Subject key id" ≠ [hexEncode g.skid]) then "FAILS subject key id"
       else if (match i.attrValues "Extended key usage" with | [s] => decide ((splitCS s).length < g.nEku) | _ => true) then
         "FAILS extended key usage: fewer usages shown than encoded"
+      else if !(ekuShownOk c (match i.attrValues "Extended key usage" with | [s] => splitCS s | _ => [])) then
+        "FAILS extended key usage: the usages shown are not the encoded ones (each known purpose by its RFC 5280 / vendor name, each other purpose by its dotted OID)"
       else if sansShown ≠ g.sans then "FAILS sans: subject alternative names differ from the encoded ones"
       else if (match subj, i.attrValues "Subject" with
           | some rd, [s] => Spec.Rfc4514.parseDN (C15.runesOf s) != some ((DN.flattenRev rd).map fun (a : DN.Oid × DN.Runes) => (DN.attrTypeName a.1, a.2))
